@@ -190,11 +190,10 @@ bool congruence<Number>::operator<=(const congruence<Number> &o) const {
       return true;
     }
   } else if (o.m_a == 0) {
-    if (m_b % m_a == (o.m_b % m_a)) {
-      return false;
-    }
+    // an infinite set is never included in a singleton
+    return false;
   }
-  return (m_a % o.m_a == 0) && (m_b % o.m_a == o.m_b % o.m_a);
+  return (m_a % o.m_a == 0) && ((m_b - o.m_b) % o.m_a == 0);
 }
 
 template <typename Number>
